@@ -282,6 +282,60 @@ def check(model: Model, run: Run) -> None:
             why += '; referenced again at line %d after the generator may have been suspended (API commands run between two next() calls)' % late[0].lineno
         run.check(ok, upd.qualname, 'self.%s detached before the first yield' % q, upd.loc(late[0]) if late else (upd.loc(reset_st) if reset_st is not None else upd.loc()), why)
 
+    # ------------------------------------------------------------------ R8 one way into each queue, nothing filtered on the way out
+    run.rule(
+        'C04.R8',
+        'a withdraw enters the pending queue only through _del_from_rib_impl (which first cancels a queued announce of the same '
+        'route), an announce only through _update_rib; updates() sends everything it detached: the loop variables bound to the '
+        'detached queues are not rebound or filtered inside the loops',
+        floor=3,
+    )
+    writers: dict[str, set[str]] = {'_pending_withdraws': set(), '_new_nlri': set(), '_new_attr_af_nlri': set()}
+    for fi_ in model.funcs.values():
+        if fi_.cls is None or not model.is_subclass(fi_.cls.qualname, RIB) and fi_.cls.qualname != RIB:
+            continue
+        fl_ = Loc(model, fi_)
+        for n in walk_no_nested(fi_.node):
+            tg_ = None
+            if isinstance(n, ast.Assign) and isinstance(n.targets[0], ast.Subscript):
+                tg_ = n.targets[0].value
+            elif isinstance(n, ast.Call) and isinstance(n.func, ast.Attribute) and n.func.attr in ('append', 'update', '__setitem__') :
+                tg_ = n.func.value
+            if tg_ is None:
+                continue
+            txt_ = fl_.expand(tg_)
+            for qn_ in writers:
+                if ('self.%s' % qn_) in txt_:
+                    writers[qn_].add(fi_.name)
+    want_w = {'_pending_withdraws': {'_del_from_rib_impl'}, '_new_nlri': {'_update_rib'}, '_new_attr_af_nlri': {'_update_rib'}}
+    for qn_, w_ in sorted(writers.items()):
+        run.check(w_ == want_w[qn_], RIB, 'entries are put into %s only by %s (found %s)' % (qn_, sorted(want_w[qn_]), sorted(w_)), upd.loc(), 'an entry queued by another function skips what the single entry point does first (cancelling the opposite operation queued for the same route, updating the cache): the peer can end on a route the Adj-RIB-Out does not hold, or the other way round')
+    ul_ = Loc(model, upd)
+    detached = {nm for nm in ul_.defs if any(isinstance(v, ast.Attribute) and dotted(v) in ('self._new_attr_af_nlri', 'self._pending_withdraws', 'self._refresh_routes', 'self._new_nlri') for v in ul_.values(nm))}
+    loopvars: dict[str, ast.AST] = {}
+    for lp in walk_no_nested(upd.node):
+        if isinstance(lp, ast.For) and (ul_.reads(lp.iter) & (detached | set(loopvars))):
+            for x in ast.walk(lp.target):
+                if isinstance(x, ast.Name):
+                    loopvars[x.id] = lp
+    # which queue each alias stands for
+    queue_of = {nm: dotted(v).split('.', 1)[1] for nm in ul_.defs for v in ul_.values(nm) if isinstance(v, ast.Attribute) and dotted(v) in ('self._new_attr_af_nlri', 'self._pending_withdraws', 'self._refresh_routes', 'self._new_nlri', 'self._refresh_families')}
+    rebound = []
+    for n in walk_no_nested(upd.node):
+        if not isinstance(n, (ast.Assign, ast.AugAssign)):
+            continue
+        tgs = [x.id for t_ in (n.targets if isinstance(n, ast.Assign) else [n.target]) for x in ast.walk(t_) if isinstance(x, ast.Name) and isinstance(x.ctx, ast.Store)]
+        hit = [t for t in tgs if t in loopvars]
+        if not hit:
+            continue
+        # the queue this loop variable comes from
+        lp = loopvars[hit[0]]
+        own = {q for a, q in queue_of.items() if ul_.depends_on(lp.iter, [a])}
+        others = [a for a, q in queue_of.items() if q not in own and not (own & {'_new_attr_af_nlri', '_new_nlri'} and q in ('_new_attr_af_nlri', '_new_nlri'))]
+        if ul_.depends_on(n.value, others):
+            rebound.append(n)
+    run.check(bool(loopvars) and not rebound, upd.qualname, 'what is emitted from one queue is not filtered by the content of another queue (%d loop variables)' % len(loopvars), upd.loc(rebound[0]) if rebound else upd.loc(), 'the collection being emitted is replaced inside the loop by one that leaves out entries found in another queue (%s): routes that were queued are dropped without being sent while the cache already says they were' % (norm(rebound[0])[:70] if rebound else ''))
+
     # ------------------------------------------------------------------ R5
     run.rule('C04.R5', 'Cache.in_cache says "already sent" only when the cached route has the same attribute index AND the same next hop index', floor=2)
     ic = model.func(CACHE + '.in_cache')
